@@ -361,6 +361,7 @@ Section FindCid.
         by (rewrite Hv, sections_cons, <- !app_assoc; reflexivity).
       unfold enc_section at 1. rewrite <- !app_assoc.
       unfold raw_uv. rewrite read_uv_put_uv by exact H63.
+      replace (maxs <? blen c + blen d) with false by lia.
       rewrite Hc at 1. rewrite cid_from_reader_enc by assumption. rewrite <- Hc.
       rewrite key_matches_same. unfold keyed. cbn [fst]. rewrite Hp.
       destruct (same_key_p whole c p key kp); [|reflexivity].
